@@ -298,7 +298,7 @@ theorem tevs_etodMain (caps : Caps) (c : Call) : tevs (etodMain caps c) = etodVT
   cases c with
   | startTestRun => cases h : caps.startRun <;> simp [etodMain, tevs, etodVT, h]
   | tags n g => cases h : caps.tags <;> simp [etodMain, tevs, etodVT, h]
-  | stopTestRun => simp only [etodMain]; split <;> rfl
+  | stopTestRun => cases h : caps.startRun <;> simp [etodMain, tevs, etodVT, h]
   | time d => simp only [etodMain]; split <;> rfl
   | progress => simp only [etodMain]; split <;> rfl
   | done => simp only [etodMain]; split <;> rfl
@@ -834,7 +834,7 @@ theorem wfTag_tevs : ∀ (h : List Call) (p cur : Nat), wfTag p cur h = true →
         simp only [tevs_c_run, wfT, Bool.and_eq_true]; exact ⟨hw.1, ih _ _ hw.2⟩
       | stopTestRun =>
         simp only [wfTag, Bool.and_eq_true] at hw
-        simp only [tevs_c_stopRun]; exact ih _ _ hw.2
+        simp only [tevs_c_stopRun, wfT, Bool.and_eq_true]; exact ⟨hw.1, ih _ _ hw.2⟩
       | startTest t =>
         simp only [wfTag, Bool.and_eq_true] at hw
         simp only [tevs_c_start, wfT, Bool.and_eq_true]; exact ⟨hw.1, ih _ _ hw.2⟩
